@@ -16,6 +16,24 @@
 (* stack flag sync_complete.  A value completion is rescheduled onto the   *)
 (* receiver's scheduler (queue q[s]); set_done from stop() is delivered    *)
 (* inline by the stopping thread.                                          *)
+(*                                                                         *)
+(* List semantics assumed here: every list operation EventV2 uses          *)
+(* (push_front_unless_latched, latch_and_drain, pop_front of the local     *)
+(* list, try_remove, unlatch, is_latched) is ONE atomic step, and exactly  *)
+(* one of pop_front / try_remove obtains a given item.  This is the        *)
+(* abstract list spec/prim/AbstractList.tla restricted to what this client *)
+(* can observe: AbstractList's two-phase insert (PFrontLink..PFrontPublish)*)
+(* and two-phase obtain (PopClaim..PopUnlink, RemClaim..RemUnlink) differ  *)
+(* from atomic steps only for empty() (never called by the event), for a   *)
+(* try_remove of an item whose push has not returned (the event calls      *)
+(* stop() only after start() returned), and for a pop_front that waits for *)
+(* a claimed head (invisible: pop_front's result is the same).  That the   *)
+(* real link-lock protocol (source/atomic_intrusive_list.cpp, incl. the    *)
+(* latch operations) implements AbstractList is checked with TLC in        *)
+(* spec/prim (AtomicIntrusiveListRef); it is not re-proved here.  The      *)
+(* binding of the latch family to the real code at link-lock granularity   *)
+(* is the `v2fine` scenario family of engines/event (schedule points       *)
+(* mutex.l.* accepted; monitor + progress/crash oracle).                   *)
 (* Schedule points: "op", "v2.start_push", "canc.started", "v2.set_pop",   *)
 (* "v2.set_resume", "v2.stop_remove" (+ the spin in the stop callback's    *)
 (* destructor, modelled as the await "v2.dereg_wait").                     *)
